@@ -6,6 +6,8 @@ Oracle: synthetic ground truth written by the harness (motion polarised on a tru
 by a sensor deployed at an arbitrary angle) + relations between executions of the real code.
 """
 
+import warnings
+
 import numpy as np
 
 from .. import gen
@@ -17,7 +19,7 @@ NUM = 4
 RULE = ("rotation cases = (true azimuth psi, deployed angle theta, chain of 1-6 targets; all anywhere in [-720,1080] incl. "
         "multiples of 90; polarised signal + optional orthogonal noise); HVSR cases = random recording x (single azimuth "
         "a vs orient-to-(current+a); a vs a+180; azimuthal vs stack of single azimuths; RotDpp percentiles vs min/max over "
-        "azimuths; rotation-invariant methods for the same ground motion recorded at two deployment angles); non-trivial = "
+        "azimuths; azimuthal vs single azimuths for 2-5 recordings with mixed time steps under each dissimilar-time-step policy; rotation-invariant methods for the same ground motion recorded at two deployment angles); non-trivial = "
         "a rotation by an angle that is not a multiple of 360 / an azimuth set with >= 2 azimuths; distinct = (psi, theta, "
         "targets) resp. (relation, method, operator, azimuths) signatures")
 ASSUMPTIONS = [
@@ -187,6 +189,51 @@ def fam_azimuthal_stack(ctx, rng):
         ctx.nontrivial(["stack", k, cfg["op"], round(float(cfg["b"]), 6), n])
 
 
+def fam_azimuthal_stack_many(ctx, rng):
+    """several recordings (mixed time steps, every dissimilar-time-step policy): azimuthal == stack of single azimuths,
+    row for row."""
+    import hvsrpy
+    dts = [float(rng.choice([0.005, 0.01, 0.02])) for _ in range(int(rng.integers(2, 6)))]
+    if rng.random() < 0.3:
+        dts = [dts[0]] * len(dts)
+    n = int(rng.choice([500, 2000, 4000]))
+    policy = str(rng.choice(["frequency_domain_resampling", "keeping_smallest_time_step", "keeping_majority_time_step"]))
+    cfg = nonneg_cfg(rng, max(dts), n, "azimuthal")
+    cfg["policy"] = policy
+    k = int(rng.integers(1, 6))
+    cfg["azimuths"] = np.sort(rng.choice(np.arange(0, 180.5, 2.5), size=k, replace=False))
+    ctx.describe(dts=dts, n=n, **cfg)
+    arrays = [gen.recording_arrays(rng, n, None, amp=1.0) for _ in dts]
+    thetas = [angle(rng) for _ in dts]
+
+    def records():
+        return [gen.make_recording(np.array(a[0]), np.array(a[1]), np.array(a[2]), dt, degrees_from_north=t)
+                for a, dt, t in zip(arrays, dts, thetas)]
+
+    def go(c):
+        ctx.count("process_calls")
+        with warnings.catch_warnings():
+            warnings.simplefilter("ignore")
+            with np.errstate(all="ignore"):
+                return hvsrpy.process(records(), C01.make_settings(c))
+    try:
+        az = go(cfg)
+        singles = [go(dict(cfg, kind="single", method="single_azimuth", azimuth=float(a))) for a in cfg["azimuths"]]
+    except ValueError:
+        ctx.count("process_refused")
+        return
+    A = [np.atleast_2d(np.asarray(h.amplitude)) for h in az.hvsrs]
+    S = [np.atleast_2d(np.asarray(h.amplitude)) for h in singles]
+    ok = len(A) == len(S) and all(x.shape == y.shape and biteq(x, y) for x, y in zip(A, S))
+    ctx.check(ok, "azimuthal-is-stack-of-single-azimuths",
+              "with several recordings an azimuth of the azimuthal result differs from the single-azimuth result",
+              rows_azimuthal=[x.shape[0] for x in A], rows_single=[y.shape[0] for y in S], time_steps=dts, handling=policy,
+              azimuths=cfg["azimuths"], op=cfg["op"], mechanism="several-recordings")
+    if len(set(dts)) > 1:
+        ctx.nontrivial(["stack-many", tuple(dts), policy, k, cfg["op"]])
+    ctx.state([len(set(dts)), policy])
+
+
 def fam_invariant(ctx, rng):
     dt = float(rng.choice([0.005, 0.01]))
     n = int(rng.choice([500, 2000, 6000]))
@@ -228,4 +275,4 @@ def fam_invariant(ctx, rng):
 
 FAMILIES = [("rotation-ground-truth", fam_rotation), ("single-azimuth-relations", fam_single_azimuth),
             ("rotation-ground-truth-2", fam_rotation), ("azimuthal-stack-and-rotdpp", fam_azimuthal_stack),
-            ("rotation-invariant-methods", fam_invariant)]
+            ("rotation-invariant-methods", fam_invariant), ("azimuthal-stack-several-recordings", fam_azimuthal_stack_many)]
